@@ -472,7 +472,11 @@ fn render_input(frame: &mut Frame<'_>, theme: &ThemeStyles, area: Rect, input: &
 }
 
 fn render_overlay(frame: &mut Frame<'_>, state: &TuiState, theme: &ThemeStyles, mode: RenderMode) {
-    let body = overlay_body_area(frame.area(), state.output_view);
+    // On a very small terminal the computed overlay rectangles reach outside the frame, and
+    // clearing them indexes past the buffer.
+    let full = frame.area();
+    let body = overlay_body_area(full, state.output_view).intersection(full);
+    let overlay_modal_area = |body: Rect| overlay_modal_area(body).intersection(full);
     match &state.overlay {
         Overlay::None => {}
         Overlay::Activity => render_activity_overlay(frame, state, theme, body),
